@@ -235,8 +235,9 @@ class Merger(object):
             fid.seek(8)
             offset = int.from_bytes(fid.read(2), byteorder='little')
             fid.seek(offset, 1)
+            j1 = 0
             for i in range(len(self.subdirs)):
-                j0 = templates_l[i - 1].shape[2] if i > 0 else 0
+                j0 = j1
                 j1 = j0 + templates_l[i].shape[2]
                 for it in np.arange(templates_l[i].shape[0]):
                     one_template = np.zeros((n_samples, n_channels), dtype=templates_l[0].dtype)
